@@ -1059,9 +1059,11 @@ class Interp:
         if p[1] == "NotIn":
             return mk_not(("cmp", "In", p[2], p[3]))
         if p[1] == "NotEq":
-            return mk_not(("cmp", "Eq", p[2], p[3]))
+            return mk_not(Interp._canon_cmp(("cmp", "Eq", p[2], p[3])))
         if p[1] in ("Lt", "Gt", "LtE", "GtE"):
             return mk_cmp(p[1], p[2], p[3])
+        if p[1] in ("Eq", "Is") and is_const(p[2]) and not is_const(p[3]):
+            return ("cmp", p[1], p[3], p[2])        # symmetric: the constant stands on the right
         return p
 
     @staticmethod
